@@ -148,9 +148,70 @@ Lemma go_DataStore_item : forall w,
   run_item "Manager.DataStoreRetrieveLoop$range1" data_v w = Some (data_item_expect w).
 Proof. intros [c a da]. destruct c; plazy; reflexivity. Qed.
 
+
+(* ---- the range readers getHeadersFromHeaderStore / getDataFromDataStore ------------------------------------------
+   "…$pre": an empty range (start > end) is an error before anything is read; "…$iter": ONE ITERATION of
+   `for i := startHeight; i <= endHeight; i++`: reads exactly height i from the P2P store; an error there ends the
+   whole read with (nil, that error) — nothing of what was read so far is returned; otherwise the item is put at
+   position i - startHeight and i grows by one.  So a read returns items only when EVERY height start .. end was
+   read, in increasing order (Proofs/GoLiteP2PIngressRefine.reads_are_loop_reads). *)
+Record gworld := { g_start : N; g_end : N; g_i : N; g_ok : bool }.
+Definition slice_v : gval := VTok "the items so far" [].
+Definition slice_plus : gval := VTok "the items so far, with the one just read" [].
+Definition item_at (i : N) : gval := VTok "item at" [VN i].
+Definition get_mgr (store : string) (w : gworld) : gval :=
+  VObj "Manager" [("logger", VUnit); (store, VOrc store [("GetByHeight", [VTuple [item_at (g_i w); er (g_ok w)]])])].
+Definition get_globals : env :=
+  [("$break", VTok "break" []); ("$continue", VTok "continue" []); ("$loop", VTok "loop" []);
+   ("$pkg", VOrc "pkg" [("$index_set", [slice_plus])])].
+Definition run_get (key store : string) (w : gworld) : option (list gval * list gval) :=
+  match lookup (only [key]) key with
+  | Some fn => interp (bind (exec 400 (only [key]) get_globals
+                                  (start_env fn (Some (get_mgr store w)) [ctx; VN (g_start w); VN (g_end w); slice_v; VN (g_i w)]) [] (f_body fn))
+                            (fun r => RRet (fst r, filter (fun e => negb (is_receiver e)) (rev (snd r)))))
+  | None => None
+  end.
+Definition get_expect (store : string) (w : gworld) : list gval * list gval :=
+  if negb (g_i w <=? g_end w)%N then ([VTok "break" []; slice_v; VN (g_i w)], []) else
+  let c1 := [VEff (store ++ ".GetByHeight") [ctx; VN (g_i w)]] in
+  if negb (g_ok w) then ([VNil; VErr true], c1)
+  else ([VTok "continue" []; slice_plus; VN (g_i w + 1)],
+        c1 ++ [VEff "pkg.$index_set" [slice_v; VN (sub64 (g_i w) (g_start w)); item_at (g_i w)]]).   (* uint64 arithmetic; i >= start in the loop *)
+
+Ltac gstep := match goal with
+              | |- (if ?c then _ else _) = _ => match c with context [(?a <=? ?b)%N] => destruct (a <=? b)%N eqn:? end
+              | |- _ = Some (if ?c then _ else _) => match c with context [(?a <=? ?b)%N] => destruct (a <=? b)%N eqn:? end
+              end; cbv beta iota.
+Lemma go_getHeaders_iter : forall w,
+  run_get "Manager.getHeadersFromHeaderStore$iter" "headerStore" w = Some (get_expect "headerStore" w).
+Proof. intros [st en i ok]. destruct ok; lazy -[N.eqb N.leb N.ltb N.add N.sub sub64]; repeat gstep; reflexivity. Qed.
+Lemma go_getData_iter : forall w,
+  run_get "Manager.getDataFromDataStore$iter" "dataStore" w = Some (get_expect "dataStore" w).
+Proof. intros [st en i ok]. destruct ok; lazy -[N.eqb N.leb N.ltb N.add N.sub sub64]; repeat gstep; reflexivity. Qed.
+
+Definition run_get_pre (key : string) (st en : N) : option (list gval * list gval) :=
+  match lookup (only [key]) key with
+  | Some fn => interp (bind (exec 400 (only [key]) get_globals
+                                  (start_env fn (Some (VObj "Manager" [("logger", VUnit)])) [ctx; VN st; VN en]) [] (f_body fn))
+                            (fun r => RRet (fst r, filter (fun e => negb (is_receiver e)) (rev (snd r)))))
+  | None => None
+  end.
+Definition get_pre_expect (ty : string) (st en : N) : list gval * list gval :=
+  if (en <? st)%N then ([VNil; VErr true], []) else ([VTok "loop" []; VZero ty], []).
+Lemma go_getHeaders_pre : forall st en,
+  run_get_pre "Manager.getHeadersFromHeaderStore$pre" st en = Some (get_pre_expect "make []*types.SignedHeader" st en).
+Proof. intros st en. plazy. destruct (en <? st)%N; reflexivity. Qed.
+Lemma go_getData_pre : forall st en,
+  run_get_pre "Manager.getDataFromDataStore$pre" st en = Some (get_pre_expect "make []*types.Data" st en).
+Proof. intros st en. plazy. destruct (en <? st)%N; reflexivity. Qed.
+
 Print Assumptions go_HeaderStore_iter.
 Print Assumptions go_DataStore_iter.
 Print Assumptions go_HeaderStore_pre.
 Print Assumptions go_DataStore_pre.
 Print Assumptions go_HeaderStore_item.
 Print Assumptions go_DataStore_item.
+Print Assumptions go_getHeaders_iter.
+Print Assumptions go_getData_iter.
+Print Assumptions go_getHeaders_pre.
+Print Assumptions go_getData_pre.
